@@ -63,7 +63,7 @@ std::vector<PropSpec> const& props()
             "paired runs: non-finite values injected at seeded calls vs. the same calls returning zero; non-trivial = at least one injected non-finite evaluation fired; distinct = distinct plan shape hashes"},
         {"C07", {{"grid", 70}, {"history", 15}, {"restart", 15}}, 18000, 720000, "exploration",
             "VEGAS runs with long refinement histories plus direct probes (u == 1, hand made data); invariants on every grid and point, equal-share bracket against a long double reference; non-trivial = every grid plan; distinct = distinct plan shape hashes"},
-        {"C08", {{"weights", 70}, {"history", 30}}, 60000, 2400000, "exploration",
+        {"C08", {{"weights", 60}, {"history", 25}, {"mpi", 15}}, 60000, 2400000, "exploration",
             "multi-channel runs with up to 40 refinements plus direct probes of the refinement; probability-vector invariants and reference model; distinct = distinct plan shape hashes"},
         {"C09", {{"select", 70}, {"history", 30}}, 14000, 560000, "exploration",
             "selector draws forced to 0, largest-below-1, every cumulative boundary and neighbours, mid points; inside runs and on the selector type directly; distinct = distinct plan shape hashes"},
